@@ -20,28 +20,91 @@ def engine_outcome(rr):
     return rr.get('output_id') or 'error'
 
 
+def sub_summary(evn):
+    """what one sub-run returned: (ok, output id, leaves of the output)"""
+    last_eval = {}
+    out_leaves = []
+    ret = None
+    for e in evn:
+        if e['ev'] == 'Eval':
+            last_eval[e['node']] = e['data']
+        elif e['ev'] == 'OutSend':
+            out_leaves = last_eval.get('outputs.' + e['id'], [])
+        elif e['ev'] == 'Return':
+            ret = e
+    if ret is None:
+        return {'ok': False, 'id': 'nil', 'leaves': []}
+    if ret['iserr']:
+        return {'ok': False, 'id': 'nil', 'leaves': []}
+    return {'ok': True, 'id': ret['id'], 'leaves': out_leaves}
+
+
 def cases_from_result(r, wf_by_file, inputs, main='workflow.yaml', sub_inputs=None):
-    """turn one scenario result into TLC cases (one per engine run found in the trace)"""
+    """turn one scenario result into TLC cases (one per engine run found in the trace); sub-runs of foreach steps are
+    cases of their own (with the sub-workflow's abstract record) and are summarised in the parent's `subs` table"""
     evs = read_trace(r['trace'])
     runs, objrun = split_runs(evs)
     ost = obj_steps(evs)
     cases = []
-    wfid_file = {}
+    by_run = {}
+    normed = {}
+    for ru in runs:
+        normed[ru['run']] = norm_events(ru['events'], ost)
+    # foreach step object -> workflow file of its items
+    def sub_file(parent_file, step):
+        st = wf_by_file[parent_file]['steps'].get(step)
+        return st.get('workflow') if st else None
+    file_of = {}
     for ru in runs:
         if ru['parent'] is None:
-            f = main
+            file_of[ru['run']] = main
+    changed = True
+    while changed:
+        changed = False
+        for ru in runs:
+            if ru['run'] in file_of or ru['parent'] is None:
+                continue
+            pobj, i = ru['parent']
+            prun = objrun.get(pobj)
+            if prun in file_of:
+                f = sub_file(file_of[prun], ost.get(pobj))
+                if f is not None:
+                    file_of[ru['run']] = f
+                    changed = True
+    subs = {}   # parent run -> step -> list of (i, summary)
+    for ru in runs:
+        if ru['parent'] is None:
+            continue
+        pobj, i = ru['parent']
+        prun = objrun.get(pobj)
+        subs.setdefault(prun, {}).setdefault(ost.get(pobj), []).append((i, sub_summary(normed[ru['run']]), ru))
+    for ru in runs:
+        f = file_of.get(ru['run'])
+        if f is None:
+            continue
+        if ru['parent'] is None:
             idx = ru['runidx'] if ru['runidx'] is not None else 0
             inp = inputs[idx] if idx < len(inputs) else inputs[0]
-            wfid_file[ru['wf']] = f
+            inleaves = gen.input_leaves(inp)
         else:
-            f = None
-            inp = None
-        if f is None:
-            continue   # sub-runs are validated by the foreach driver, which knows their workflow
-        evn = norm_events(ru['events'], ost)
-        returned = any(e['ev'] == 'Return' for e in evn)
-        cases.append({'wf': strip_wf(wf_by_file[f]), 'input': gen.input_leaves(inp), 'noreturn': False,
-                      'events': evn, '_run': ru['run'], '_returned': returned})
+            inleaves = None
+            # the item this sub-run got: the Eval of the parent's execute stage lists the items
+            pobj, i = ru['parent']
+            prun = objrun.get(pobj)
+            pst = ost.get(pobj)
+            for e in normed.get(prun, []):
+                if e['ev'] == 'Eval' and e['node'] == 'steps.%s.execute' % pst:
+                    pre = ['items', str(i)]
+                    inleaves = [{'p': x['p'][2:], 'v': x['v']} for x in e['data'] if x['p'][:2] == pre]
+            if inleaves is None:
+                inleaves = []
+        stab = {}
+        for st, lst in subs.get(ru['run'], {}).items():
+            lst = sorted(lst, key=lambda x: x[0])
+            stab[st] = [{'i': i, 'ok': s['ok'], 'id': s['id'], 'leaves': s['leaves']} for i, s, _ in lst]
+        evn = normed[ru['run']]
+        cases.append({'wf': strip_wf(wf_by_file[f]), 'input': inleaves, 'noreturn': False, 'subs': stab,
+                      'events': evn, '_run': ru['run'], '_returned': any(e['ev'] == 'Return' for e in evn), '_file': f})
     return cases
 
 
@@ -84,7 +147,7 @@ def run_family(binary, work, items, jobs=None, batch=6, meaning_needed=True, log
     # 2. real runs
     scs = []
     for it in items:
-        sc = gen.make_scenario(it['wf'], it['script'], it['input'], it.get('schedule'), **it.get('extra', {}))
+        sc = gen.make_scenario(it['wf'], it['script'], it['input'], it.get('schedule'), subwfs=it.get('subwfs'), **it.get('extra', {}))
         scs.append(sc)
     results = run_scenarios(binary, scs, work, jobs=jobs)
     stats['runs'] = len(results)
@@ -112,7 +175,9 @@ def run_family(binary, work, items, jobs=None, batch=6, meaning_needed=True, log
             findings.append(Finding(prop='C01', rule='run-did-not-return', detail=classify_hang(res.get('stacks', '')), item=i, where=r['dir']))
         for lk in (res.get('leaks') or []):
             findings.append(Finding(prop='C05', rule='goroutine-left-after-return', detail=leak_site(lk), item=i, where=r['dir']))
-        cs = cases_from_result(r, {'workflow.yaml': it['wf']}, [it['input']])
+        wfs = {'workflow.yaml': it['wf']}
+        wfs.update(it.get('subwfs', {}))
+        cs = cases_from_result(r, wfs, [it['input']])
         for c in cs:
             if res.get('watchdog'):
                 c['noreturn'] = True
